@@ -65,7 +65,6 @@ structure NcPCfg (env : SimEnv) (s0 : Sys) : Prop where
   hfull : s0.buf.size = [] ∧ s0.buf.hot.cur = s0.buf.hot.total ∧ s0.buf.cold.cur = s0.buf.cold.total
   hct : s0.buf.cold.transfer = none
   h1 : Sys.NoTierCfg s0
-  h2 : Sys.OneAdmission s0
   alg : PlanAlg s0.alg
   stat : s0.staticPlan = true
   topo : ∀ o ∈ s0.obs, IsTopo o.wf
